@@ -9,7 +9,8 @@ class Prop(C02):
     pid = 'C15'
     props_file = 'Props/C15.v'
     required_theorems = ['no_empty_destination', 'stats_eq_recount', 'no_counter_underflow', 'table_totals_eq_recount',
-                         'limit_counter_refuted']
+                         'limit_counter_refuted', 'limit_respected_outside_known', 'limit_rejection_installs_nothing',
+                         'remove_finds_stats']
     extra_targets = ['Model/Rib.vo']
     rule = ('histories with per-session prefix limits 0..5 over 3 prefixes x 3 path ids, 3 peers sharing prefixes, filtered/unfiltered transitions, '
             'peer drop, stale/LLGR/NO_LLGR purges, limit-exceeded insertions and session restarts; non-trivial = some counter or statistic is > 0 '
